@@ -38,6 +38,8 @@ for nidl in (False, True):
                                                                      RPL(C("k2", nid="own")), R("k2"), RPL(C("k2", nid="own")), RE, E("k3"), C("k3"), RPL(C("k3"))])
 beh("f02_mixed", ["C02", "C14"], cfg(), [E("k1"), C("k1", kind="mixedFA"), C("k1", kind="mixedFA", ck="k2", chain="self"), C("k1", kind="mixedFA", priv=False), C("k1", kind="mixedAF"),
                                        C("k1", kind="mixedAF", ck="k3", chain="self"), D("k1")])
+beh("f14_reset_after_fetch", ["C14"], cfg(), [E("k1"), M("resetAfterHandshake", "fetch"), D("k1"), M("resetAfterHandshake", "fetch"), M("resetAfterHandshake", "fetch"), D("k1"),
+                                              C("k1", chain="selfNoSan"), C("k1", chain="selfNoSan", nsig="kx"), C("k1", ck="k2", chain="selfNoSan"), D("k1")])
 beh("f14_aborts", ["C14"], cfg(), [E("k1"), M("clientAlert", "auth"), D("k1"), M("clientAlert", "fetch"), M("resetMidHello", "auth"), M("resetAfterHello", "fetch"), M("clientAlert", "pref"), D("k1"),
                                    M("rawSslv2"), M("rawOversizeRecord"), M("rawHttp"), M("rawBadVersion"), D("k1")])
 beh("f02_nobase", ["C02"], cfg(base=False), [E("k1"), C("k1", kind="base"), C("k1"), C("k1", kind="fetch")])
